@@ -22,7 +22,7 @@ Record ncase := mkCase {
   c_dst : N; c_ci : N; c_ch : N; c_lens : list N;
   c_infos : list c_info;
   c_hops : list c_hop;
-  c_kind : N;                                   (* 0 offered path, 1 reverse of an arrived offered path, 2 mutated *)
+  c_kind : N;                                   (* 0 offered path, 1 reverse of an arrived offered path, 2 mutated, 3 one-hop, 7 lifetime *)
   c_meta_l : list c_ifc;                         (* interface list of the path metadata (kind 0/1) *)
   c_trace_l : list c_line;                      (* implementation: per-AS lines *)
   c_end : N;                                    (* 0 verdict, 1 iterator error, 2 panic, 3 step cap *)
@@ -147,6 +147,14 @@ Definition verdict_onehop (c : ncase) : N :=
     + (if o4 then 0 else 256) + (if o1 then 0 else 4096) + (if o2 then 0 else 8192) + (if o3 then 0 else 16384)
   end.
 
+(** (segment timestamp, ExpTime) of every hop field *)
+Fixpoint hops_with_ts (lens : list nat) (infos : list infof) (hops : list hopf) : list (N * N) :=
+  match lens, infos with
+  | l :: lens', i :: infos' =>
+      map (fun h => (i_ts i, h_exp h)) (firstn l hops) ++ hops_with_ts lens' infos' (skipn l hops)
+  | _, _ => []
+  end.
+
 Definition verdict_std (c : ncase) : N :=
   let t := case_topo c in
   let pk := case_packet c in
@@ -185,10 +193,17 @@ Definition verdict_std (c : ncase) : N :=
                 && list_eqb pairN_eqb (crossed true itr) (c_meta c)) in
   (* the reference router delivers every offered path (C01) *)
   let o7 := negb offered || optN_eqb (rend_delivered rendv) (Some (c_dst c)) in
+  (* lifetime cases (kind 7): an authentic path minted with chosen timestamps and ExpTime values,
+     sent from its source; it arrives iff the clock is inside the lifetime of every hop field,
+     the lifetime being the specification's [Spec.spec_time_ok] *)
+  let o8 := negb (c_kind c =? 7)
+            || Bool.eqb (optN_eqb (delivered_at itr) (Some (c_dst c)))
+                 (forallb (fun '(ts, e) => spec_time_ok (c_now c) ts e)
+                    (hops_with_ts (p_lens p) (p_infos p) (p_hops p))) in
   let peering := uses_peering p in
   let shortcut := uses_shortcut p in
   let peer_change := names_peer_if_at_change t p in
-  let hard := negb (o1 && o2 && o3) in
+  let hard := negb (o1 && o2 && o3 && o8) in
   let soft_fail := negb (o4 && o5 && o6 && o7) in
   let k_peering := soft_fail && peering in
   let k_peer_change := soft_fail && negb peering && peer_change in
@@ -198,7 +213,8 @@ Definition verdict_std (c : ncase) : N :=
   + (if k_shortcut then 16 else 0) + (if k_peering then 32 else 0) + (if k_peer_change then 64 else 0)
   (* diagnostic bits above 2^8 (ignored by the driver): which oracle failed *)
   + (if o4 then 0 else 256) + (if o5 then 0 else 512) + (if o6 then 0 else 1024) + (if o7 then 0 else 2048)
-  + (if o1 then 0 else 4096) + (if o2 then 0 else 8192) + (if o3 then 0 else 16384).
+  + (if o1 then 0 else 4096) + (if o2 then 0 else 8192) + (if o3 then 0 else 16384)
+  + (if o8 then 0 else 32768).
 
 Definition verdict (c : ncase) : N := if is_nil (c_lens c) then verdict_onehop c else verdict_std c.
 Definition verdicts (cs : list ncase) : list N := map verdict cs.
